@@ -29,7 +29,7 @@ def twin_operations(ctx, clause):
     m = {k: v for k, v in c.methods.items()}
     # ---- C04.1 twin operations on samples / log_q --------------------------------
     ss = m["sort_samples"]
-    ok = len(find_stmt("$$i = argsort(samples, order='logL')", ss.node)) == 1 and len(find_stmt("return get_subset_arrays($$i, samples, *args)", ss.node)) == 1 and len(find_stmt("return samples[$$i]", ss.node)) == 1
+    ok = len(find_stmt("$$i = argsort(samples, order='logL')", ss.node)) == 1 and (len(find_stmt("return get_subset_arrays($$i, samples, *args)", ss.node)) == 1 or len(find_stmt("return tuple($$a[$$i] for $$a in (samples, *args))", ss.node)) == 1) and len(find_stmt("return samples[$$i]", ss.node)) == 1
     ctx.ob("R-PAIR", clause, ss, "sorting applies one argsort (by logL) to the samples and to every companion array", ok, "")
     gs = ctx.fn("nessai.utils.structures:get_subset_arrays")
     ctx.ob("R-PAIR", clause, gs, "get_subset_arrays indexes every array with the same index object", len(find_stmt("return tuple($$a[indices] for $$a in args)", gs.node)) == 1, "")
@@ -142,6 +142,11 @@ def run(ctx):
                     for sz_ in ("$news.size", "len($news)"):
                         if match_expr(f"get_inverse_indices({sz_}, {np_})", old_, bb_) is not None:
                             ok_old = True
+                        # the helper written out: the members of arange(size) that are not new positions
+                        for ar_ in (f"arange({sz_}, dtype=int)", f"arange({sz_})"):
+                            for comp_ in (f"{ar_}[~isin({ar_}, {np_})]", f"{ar_}[isin({ar_}, {np_}, invert=True)]", f"setdiff1d({ar_}, {np_})", f"delete({ar_}, {np_})"):
+                                if match_expr(comp_, old_, bb_) is not None:
+                                    ok_old = True
                 # the equivalent right-sided shift: old rank + number of new rows inserted before it
                 for n_txt in ("self.samples.size", "len(self.samples)"):
                     for ar_ in (f"arange({n_txt})", f"arange({n_txt}, dtype=int)"):
